@@ -147,6 +147,14 @@ U_LongCollide(zz) ==
                                                   [IntF("n", 2, FALSE, "default") EXCEPT !.mv = [kind |-> "at", arg |-> SzConst(0), ref |-> "innermost-pkt"]],
                                                   DataF("t", SzMarker(<<10>>, FALSE, TRUE))>>)], {65}, 0, {0}),
                 {<<0, 1>> \o RepB(65, k) \o <<10>> \o RepB(66, 704 - (k + 3)) : k \in {697, 698, 699}})}
+\* a delimiter that also matches at the end of what is searched (`X+|$`) more than 65536 bytes away; a skipped distance of
+\* more than 4096 bytes (the filler of a gap is as long as the gap)
+U_LongEnd(zz) ==
+    {WithInputs(DeclP([C0 |-> Class(DefaultOpts, <<U1("a"), DataF("d", SzRegex("Xplus_or_end", FALSE, TRUE)), IntF("z", 2, FALSE, "default")>>)], {65}, 0, {0}),
+                {<<7>> \o RepB(65, k) \o <<88, 88, 0, 9>> : k \in {65535, 65600}})}
+U_LongGap(zz) ==
+    {WithInputs(DeclP([C0 |-> Class(DefaultOpts, <<U1("a"), [U1("b") EXCEPT !.mv = [kind |-> "at", arg |-> SzConst(g), ref |-> "innermost-pkt"]], U1("z")>>)], {65}, 0, {0, 1}),
+                {<<7>> \o RepB(65, g - 1) \o <<8, 9>>}) : g \in {4096, 4100, 8200}}
 U_LongMarker(zz) ==
     {WithInputs(DeclP([C0 |-> Class(DefaultOpts, <<U1("a"), DataF("d", SzMarker(<<13, 10>>, FALSE, TRUE)), U1("z")>>)], {65}, 0, {0}),
                 {<<7>> \o RepB(65, k) \o <<13, 10, 9>> : k \in {65534, 65535}})}
@@ -350,9 +358,22 @@ U_C03_Mixed(zz) ==
           DeclP([C0 |-> Class(DefaultOpts, <<U1("a")>> \o Embedded("p", "C1", <<>>, Sub1.fields)
                                            \o <<DataF("m", SzMarker(<<0>>, FALSE, TRUE)), IntF("t", 3, FALSE, "default"), U1("z")>>), C1 |-> Sub1],
                 {0, 1, 2}, 7, {0})}
-U_C03(zz) == U_C03_Fixed(0) \cup U_C03_Mixed(0) \cup U_Long(0) \cup U_LongSeq(0) \cup U_LongAligned(0)
+\* what a code generator may get wrong only beyond pairs: a fixed byte string BETWEEN integers of opposite byte order; ten
+\* consecutive fields without a struct code (a long run of loop-coded fields); integers of the host's byte order and of
+\* growing width next to each other (a native-alignment format would pad them)
+IntN(nm, i) == IntF(nm \o ToString(i), 3, FALSE, "default")
+U_C03_More(zz) ==
+    {DeclO(DefaultOpts, <<IntF("a", 2, FALSE, e1), DataF("d", SzConst(nd)), IntF("b", 2, FALSE, e2), U1("z")>>, {1, 2}, 7) :
+        e1 \in {"default", "little"}, e2 \in {"default", "little"}, nd \in {1, 2}}
+    \cup {WithInputs(DeclO(DefaultOpts, [i \in 1..10 |-> IntN("f", i)], {1}, 0),
+                     {[i \in 1..30 |-> i % 5], [i \in 1..29 |-> i % 5], [i \in 1..31 |-> i % 5], [i \in 1..27 |-> 1]})}
+    \cup {WithInputs(DeclO(DefaultOpts, <<IntF("a", 1, FALSE, "local"), IntF("b", 2, FALSE, "local"), IntF("c", 4, TRUE, "local"), U1("z")>>, {1}, 0),
+                     {<<1, 2, 0, 3, 0, 0, 0, 9>>, <<1, 2, 0, 3, 0, 0, 0>>, <<1, 2, 0, 254, 255, 255, 255, 9>>, <<1, 2, 0, 3, 0, 0, 0, 9, 9>>}),
+          WithInputs(DeclO([DefaultOpts EXCEPT !.endian = "local"], <<U1("a"), IntF("b", 4, FALSE, "default"), IntF("c", 2, FALSE, "default")>>, {1}, 0),
+                     {<<1, 2, 0, 0, 0, 3, 0>>, <<1, 2, 0, 0, 0, 3>>, <<1, 2, 0, 0, 0, 3, 0, 7>>})}
+U_C03(zz) == U_C03_Fixed(0) \cup U_C03_Mixed(0) \cup U_C03_More(0) \cup U_Long(0) \cup U_LongSeq(0) \cup U_LongAligned(0)
 U_C03_Q(zz) == {d \in U_C03_Fixed(0) : d.prog["C0"].opts.endian = "little" \/ d.prog["C0"].fields[1].k = "Data"
-                                 \/ (d.prog["C0"].fields[1].k = "Int" /\ d.prog["C0"].fields[1].n \in {1, 3})} \cup U_C03_Mixed(0) \cup U_Long(0)
+                                 \/ (d.prog["C0"].fields[1].k = "Int" /\ d.prog["C0"].fields[1].n \in {1, 3})} \cup U_C03_Mixed(0) \cup U_C03_More(0) \cup U_Long(0)
 
 \* -------------------------------------------------------------------- C12
 \* nested declarations driven into failure at every depth
@@ -583,7 +604,9 @@ PickU(n) ==
       [] n = "U_C14_End" -> U_C14_End(0)
       [] n = "U_Long" -> U_Long(0)
       [] n = "U_LongC01" -> U_LongSeq(0)
-      [] n = "U_LongC06" -> U_LongRegex(0) \cup U_LongMarker(0)
+      [] n = "U_LongC06" -> U_LongRegex(0) \cup U_LongMarker(0) \cup U_LongEnd(0)
+      [] n = "U_C03_More" -> U_C03_More(0)
+      [] n = "U_LongC10" -> U_LongAligned(0) \cup U_LongGap(0)
       [] n = "U_LongC12" -> U_LongCollide(0) \cup U_LongAligned(0)
       [] n = "U_LongSeq" -> U_LongSeq(0)
       [] n = "U_LongAligned" -> U_LongAligned(0)
